@@ -81,8 +81,15 @@ def varint_facts(ctx) -> Dict[str, Any]:
                     widen.add(e.data[2][1])
                 if e.kind == "store":
                     pass
-            # also the form value = value + M / value % M / value & (M-1)
-            v = p.locals.get(vparam)
+            # also the form value + M written as an expression (returned by a helper, assigned back): any term of the path
+            for e in p.events:
+                terms = [e.data] if isinstance(e.data, tuple) and e.data and isinstance(e.data[0], str) else [x for x in (e.data if isinstance(e.data, tuple) else ()) if isinstance(x, tuple)]
+                for t0 in terms:
+                    for t in walk(t0):
+                        if t[0] == "op" and t[1] == "+" and len(t) == 4 and N(vparam) in t[2:]:
+                            other = t[3] if t[2] == N(vparam) else t[2]
+                            if other[0] == "c" and isinstance(other[1], int) and other[1] >= 1 << 16:
+                                widen.add(other[1])
     facts["dump_widen"] = sorted(widen)
 
     # emit loop constants of dump: masks, shifts, continuation bits
@@ -112,8 +119,18 @@ def varint_facts(ctx) -> Dict[str, Any]:
     neg_atom_s = ("op", "<", N(sparam), C(0))
     zero_atom_s = ("op", "==", N(sparam), C(0))
     facts["size_neg"] = sorted({p.value[1] for p in spaths if p.valuation.get(neg_atom_s) is True and p.outcome == "return" and p.value and p.value[0] == "c"})
+    # a negative branch that is an expression: evaluated over the accepted negative range [-2**63, -1]
+    from ..numeric import interval as _interval
+    for p in spaths:
+        neg = p.valuation.get(neg_atom_s) is True or p.valuation.get(("op", "<", N(sparam), C(0))) is True or p.valuation.get(("op", "<", C(-1), N(sparam))) is False
+        if neg and p.outcome == "return" and p.value and p.value[0] != "c":
+            iv = _interval(p.value, lambda t: (SPEC_MIN, -1) if t == N(sparam) else None)
+            if iv[0] == iv[1] and iv[0] not in (float("inf"), float("-inf")):
+                facts["size_neg"] = sorted(set(facts["size_neg"]) | {int(iv[0])})
+            else:
+                facts["size_neg"] = sorted(set(facts["size_neg"]) | {f"[{iv[0]},{iv[1]}]"}, key=str)
     facts["size_zero"] = sorted({p.value[1] for p in spaths if p.valuation.get(zero_atom_s) is True and p.outcome == "return" and p.value and p.value[0] == "c"})
-    pos = [p for p in spaths if p.outcome == "return" and p.value and p.value[0] != "c"]
+    pos = [p for p in spaths if p.outcome == "return" and p.value and p.value[0] != "c" and p.valuation.get(neg_atom_s) is not True]
     # `<size of the positive branch> or k`: the bit length is 0 exactly for the value 0, which then takes k bytes
     pos_values = []
     for p in pos:
